@@ -1,6 +1,7 @@
 import Gv.Oracle.Common
 import Gv.Spec.Bag
 import Gv.Model.Rand
+import Gv.Model.Identical
 /-! Oracle handler for container histories (C01): `hist <A|B> <alphabet> <rows> <ops>`. -/
 namespace Gv.Oracle.BagOps
 open Gv Gv.Oracle Gv.Model
@@ -266,8 +267,38 @@ def rectangularStep (st : String) : Bool :=
     | none => false
   | _, _ => true
 
+/-- `identical <A|B> <alphabet> <rows x> <rows y> <rename x> <rename y>`: model = the container model of C01 (rows added
+one by one, a refused row skipped, caller-made renames) and `Model.identical` both ways; predicate, stated independently
+on the rows the IMPLEMENTATION reports: with pairwise distinct names in both containers the answer (both ways) is
+"the two row lists are permutations of each other" (`Props/C01` `identical_iff_same_records`); with repeated names,
+"as many rows and every row of the receiver is the first row of its name in the other, same bytes" (`identicalRows_spec`) -/
+def identicalAns (kind : String) (alpha : Nat) (rx ry : List (String × Seq)) (mx my : List (String × String)) (impl : String) : Ans :=
+  let mk (rows : List (String × Seq)) (m : List (String × String)) : Bag :=
+    let b := addAllIgnore (if kind == "A" then newAlign alpha else newBag alpha) rows
+    if m.isEmpty then b else rename m b
+  let x := mk rx mx
+  let y := mk ry my
+  let b2s (b : Bool) : String := if b then "1" else "0"
+  let m := b2s (identical x y) ++ " " ++ b2s (identical y x) ++ " " ++ encPRows (pairs x) ++ " " ++ encPRows (pairs y)
+  let v := match impl.splitOn " " with
+    | [xy, yx, px, py] =>
+      let ax := decPRows px
+      let ay := decPRows py
+      let distinct (l : List (String × Seq)) : Bool := (l.map Prod.fst).eraseDups.length == l.length
+      let firstWise (p q : List (String × Seq)) : Bool :=
+        p.length == q.length && p.all fun r => (q.find? fun s => s.1 == r.1) == some r
+      if distinct ax && distinct ay then
+        verdictOf (xy == b2s (ax.isPerm ay) && yx == b2s (ax.isPerm ay)) "identical-is-not-same-records-up-to-order"
+      else verdictOf (xy == b2s (firstWise ax ay) && yx == b2s (firstWise ay ax)) "identical-with-repeated-names"
+    | _ => "fail:identical-answer-shape"
+  ⟨m, v⟩
+
 def handle : Handler := fun op args impl =>
   match op, args with
+  | "identical", [kind, alpha, rx, ry, mx, my] => do
+    let alpha ← alpha.toNat?
+    let dm (s : String) : List (String × String) := (decPRows s).map fun p => (p.1, pctDec (stringOfBytes p.2))
+    some (identicalAns kind alpha (decPRows rx) (decPRows ry) (dm mx) (dm my) impl)
   | "hist", [kind, alpha, rows, ops] => do
     let alpha ← alpha.toNat?
     let rows := decPRows rows
